@@ -36,6 +36,7 @@ type dlEv struct {
 type dlCase struct {
 	Strategy  string   `json:"strategy"` // simple | precise | lookup | predicate
 	StratInit int      `json:"strat_init"`
+	PartInit  int      `json:"part_init,omitempty"` // lookup: limit argument the partition objects are constructed with
 	Limit     LimitCfg `json:"limit"`          // algo "script" = scripted trajectory below
 	Traj      []int    `json:"traj,omitempty"` // scripted estimates: traj[i] after i OnSample calls (last repeats)
 	WinSize   int      `json:"win_size"`
@@ -77,6 +78,7 @@ func genDL(purpose string) func(t *rapid.T) dlCase {
 			c.Strategy = rapid.SampledFrom([]string{"simple", "precise"}).Draw(t, "strategy01")
 		}
 		c.StratInit = rapid.IntRange(1, 30).Draw(t, "stratInit")
+		c.PartInit = rapid.SampledFrom([]int{1, 1, 0, 4, 25}).Draw(t, "partInit")
 		switch rapid.IntRange(0, 5).Draw(t, "limitKind") {
 		case 0:
 			c.Limit = genLimitCfg(t, []string{"aimd", "vegas", "gradient2"}, false)
@@ -110,7 +112,7 @@ func genDL(purpose string) func(t *rapid.T) dlCase {
 					Ns:      rapid.SampledFrom([]int64{1, 1000, 100_000, 1_000_000, 3_000_000}).Draw(t, "cns"),
 					Outcome: rapid.SampledFrom([]int{0, 0, 0, 0, 0, 1, 2}).Draw(t, "coutcome")}
 			case k < 8:
-				return dlEv{K: "acq", Key: rapid.SampledFrom([]string{"a", "a", "b", "zz"}).Draw(t, "key")}
+				return dlEv{K: "acq", Key: rapid.SampledFrom([]string{"a", "a", "b", "zz", "c"}).Draw(t, "key")}
 			case k < 16:
 				return dlEv{K: "done", Idx: rapid.IntRange(0, 1000).Draw(t, "idx"), Outcome: rapid.SampledFrom([]int{0, 0, 0, 0, 1, 2}).Draw(t, "outcome")}
 			default:
@@ -165,7 +167,7 @@ func (b *dlBuilt) stratBusy() int {
 	return b.pred.BusyCount()
 }
 
-var dlBins = []string{"a", "b"}
+var dlBins = []string{"a", "b", "c"} // fractions 0.5, 0.25 and 0 (a named zero-percent partition)
 
 func (b *dlBuilt) binLimit(i int) int {
 	if b.lookup != nil {
@@ -198,7 +200,7 @@ func buildDL(c dlCase, sc *sched) (*dlBuilt, error) {
 	case "lookup":
 		m := map[string]*strategy.LookupPartition{}
 		for _, n := range dlBins {
-			m[n] = strategy.NewLookupPartitionWithMetricRegistry(n, stackBinFracs[n], 1, b.reg)
+			m[n] = strategy.NewLookupPartitionWithMetricRegistry(n, stackBinFracs[n], int32(c.PartInit), b.reg)
 		}
 		l, err := strategy.NewLookupPartitionStrategyWithMetricRegistry(m, nil, int32(c.StratInit), b.reg)
 		if err != nil {
